@@ -30,6 +30,7 @@ func caseGen() *rapid.Generator[Case] {
 		MaxCells:  5,
 		HeavyTail: 24,
 		MultiHdr:  true,
+		AllowCopy: true,
 		Creators:  []string{"core", "core", "core", "csv", "texttable", "html", "json", "markdown", "auto:utf8-light"},
 	})
 	return rapid.Custom(func(t *rapid.T) Case { return Case{Script: sg.Draw(t, "script")} })
